@@ -455,9 +455,11 @@ pub fn rotation_worker(tier: &str) {
     let mut queries = 0;
     let oplog_dir = ctx.dir.join("oplog");
     let count_rotated = || std::fs::read_dir(&oplog_dir).map(|d| d.count()).unwrap_or(0);
-    for n in 1..=max_n {
+    // timestamp shapes: strictly increasing; plateaus of four equal timestamps (longer than a small file, so a
+    // plateau straddles rotations); one timestamp for every record
+    for (shape, n) in (0..3usize).flat_map(|sh| (1..=max_n).map(move |n| (sh, n))) {
         Oplog::clean_op_log_metadata_files();
-        let ts: Vec<u64> = (0..n).map(|i| 100 + 10 * i as u64).collect();
+        let ts: Vec<u64> = (0..n).map(|i| match shape { 0 => 100 + 10 * i as u64, 1 => 100 + 10 * (i / 4) as u64, _ => 500 }).collect();
         {
             let mut stream = Oplog::get_log_file_append_mode();
             let mut rotated = count_rotated();
@@ -488,7 +490,7 @@ pub fn rotation_worker(tier: &str) {
             let kept_from = if phase == 0 { 0 } else { n.saturating_sub((size / 25) as usize) };
             let last = Oplog::last_op_time();
             if last != *ts.last().unwrap() {
-                println!("V\tlast-op-time-wrong\trotation size={} n={} files={} phase={}\tlast_op_time()={} newest record={}", per_file_limit, n, nb, phase, last, ts.last().unwrap());
+                println!("V\tlast-op-time-wrong\trotation size={} n={} files={} phase={} shape={}\tlast_op_time()={} newest record={}", per_file_limit, n, nb, phase, shape, last, ts.last().unwrap());
             }
             for since in since_candidates(&ts) {
                 queries += 1;
@@ -507,9 +509,9 @@ pub fn rotation_worker(tier: &str) {
                     let per_file = (per_file_limit / 25).max(1) as usize;
                     let granularity_only = phase == 1 && missing.iter().all(|i| *i < kept_from + per_file - 1);
                     println!(
-                        "V\t{}\trotation file_limit={}B n={} rotated_files={} {}\tsince {}: missing record indices {:?} (returned {:?})",
+                        "V\t{}\trotation file_limit={}B n={} rotated_files={} timestamps={} {}\tsince {}: missing record indices {:?} (returned {:?})",
                         if phase == 0 { "record-missed" } else if granularity_only { "record-within-log-size-dropped-with-its-whole-file" } else { "record-within-log-size-dropped" },
-                        per_file_limit, n, nb, rel_since(&ts, since), since, missing, got
+                        per_file_limit, n, nb, ["increasing", "plateaus-of-4", "all-equal"][shape], rel_since(&ts, since), since, missing, got
                     );
                 }
             }
